@@ -46,13 +46,32 @@ def local_defs(fn: FunctionInfo, name: str) -> T.List[T.Tuple[ast.AST, T.Optiona
     return out
 
 
+def ifelse_def(fn: FunctionInfo, name: str) -> T.Optional[ast.IfExp]:
+    """`if c: name = A else: name = B` (the only two bindings of name, each the only statement of its branch)
+    read as the conditional expression `A if c else B`."""
+    d = local_defs(fn, name)
+    if len(d) != 2 or any(v is None or not isinstance(st, (ast.Assign, ast.AnnAssign)) for st, v in d):
+        return None
+    (s1, v1), (s2, v2) = d
+    for n in walk_no_nested(fn.node):
+        if isinstance(n, ast.If) and len(n.body) == 1 and len(n.orelse) == 1:
+            if n.body[0] is s1 and n.orelse[0] is s2:
+                return ast.copy_location(ast.IfExp(test=n.test, body=v1, orelse=v2), n)
+            if n.body[0] is s2 and n.orelse[0] is s1:
+                return ast.copy_location(ast.IfExp(test=n.test, body=v2, orelse=v1), n)
+    return None
+
+
 def single_def(fn: FunctionInfo, name: str) -> T.Optional[ast.AST]:
-    """The value expression if `name` is a local bound exactly once by a plain assignment."""
+    """The value expression if `name` is a local bound exactly once by a plain assignment (or by the two branches of
+    one if/else, read as a conditional expression)."""
     if name in fn.all_params:
         return None
     d = local_defs(fn, name)
     if len(d) == 1 and d[0][1] is not None:
         return d[0][1]
+    if len(d) == 2:
+        return ifelse_def(fn, name)
     return None
 
 
@@ -538,6 +557,10 @@ def inline(fn: FunctionInfo, expr: ast.AST, prog: T.Optional[Program] = None, de
             v = d[0][1]
             if name not in {x.id for x in ast.walk(v) if isinstance(x, ast.Name)}:
                 memo[name] = v
+        elif len(d) == 2:
+            v2 = ifelse_def(fn, name)
+            if v2 is not None and name not in {x.id for x in ast.walk(v2) if isinstance(x, ast.Name)}:
+                memo[name] = v2
         elif not d and consts:
             memo[name] = _module_const_ast(prog, fn, name)
         return memo[name]
